@@ -9,11 +9,12 @@ VERIF = pathlib.Path(__file__).resolve().parent.parent
 sys.path.insert(0, str(VERIF))
 
 props = [json.loads(l)["id"] for l in open(VERIF / "properties.jsonl")]
-NOT_BUILT = {}
+# properties whose check is built, validated on the unchanged tree and claimed
+CLAIMED = (VERIF / "vmon" / "claimed.txt").read_text().split()
 checks, na = [], []
 for pid in props:
     modfile = VERIF / "vmon" / "work" / f"{pid.lower()}.py"
-    if not modfile.exists():
+    if not modfile.exists() or pid not in CLAIMED:
         na.append({"property_id": pid, "reason": "check not built yet (runtime monitoring "
                    "applies, see DESIGN.md section 4); no claim is made"})
         continue
